@@ -370,6 +370,10 @@ class SpecEval:
         if seen is not None:
             seen.setdefault(name, {})["|".join(p.sexpr() for p in lst.parts)] = lst
         n = V.list_len(lst)
+        # one-step unfolding of the snoc-recursive definition (fold is a function of the element array and the length)
+        prev = Val(lst.ty, list(lst.parts[:-1]) + [n - 1])
+        tlast = fold_term(self.ex, name, V.list_get(lst, n - 1), self.st, self.facts)
+        self.facts.append(z3.Implies(n >= 1, r.t == fold_app(self.ex, name, prev, self.st).t + tlast.t))
         if name in S.FOLD_BOUNDS:      # sum of terms within [lo, hi] (side condition proved in props/lemmas.py)
             lo, hi = S.FOLD_BOUNDS[name]
             self.facts.append(z3.Implies(n >= 0, z3.And(lo * n <= r.t, r.t <= hi * n)))
@@ -386,6 +390,14 @@ class SpecEval:
         if x.ty.kind != "ref":
             raise SpecError("allocated() of a non-object")
         return V.mk_bool(z3.Select(self.st.alloc_map(x.ty.name), x.t))
+
+    def fn_prefix(self, node):
+        """prefix(L, k): the first k elements of L."""
+        lst = O.strip_opt(self.ev(node.args[0]))
+        k = self.ev(node.args[1])
+        if V.is_empty_literal(lst):
+            return lst
+        return Val(lst.ty, list(lst.parts[:-1]) + [k.t])
 
     def fn_fold_hint(self, node):
         """fold_hint("name", L): true; adds the extremal facts of a bounded sum for this list
